@@ -120,11 +120,11 @@ func p4infoOracle(repoDir string) (string, error) {
 	var sb strings.Builder
 	sb.WriteString("// ---- GENERATED on this run from conf/p4/bin/p4info.txt (oracle of the shipped pipeline) ----\n\n")
 	type fld struct {
-		table  int64
-		name   string
-		id     int64
-		kind   int
-		width  int64
+		table int64
+		name  string
+		id    int64
+		kind  int
+		width int64
 	}
 	var fields []fld
 	var allowed [][2]int64
